@@ -36,6 +36,13 @@ def Ctx.unicode (ctx : Ctx) : Unicode where
   isSpace c := (ctx.find c).space
   classNA c := (ctx.find c).cls
 
+/-- The hypothesis `CfgOk` of `C01_documented_syntax` about Go's tables, checked on the table the
+    harness dumped: no non-ASCII rune is lower-cased to one of the syntax characters `! $ ' ^ |`. -/
+def Ctx.lowerKeepsSyntax (ctx : Ctx) : Bool :=
+  ctx.ranges.all fun r => [33, 36, 39, 94, 124].all fun (s : Nat) =>
+    let c : Int := (s : Int) - r.delta
+    !(c ≥ (max r.lo 128 : Nat) ∧ c ≤ (r.hi : Nat)) || r.delta == 0
+
 def Ctx.norm (ctx : Ctx) (r : Nat) : Nat :=
   if r < 0x00C0 ∨ r > 0x2184 then r else ctx.normArr.getD (r - 0x00C0) r
 
